@@ -300,3 +300,39 @@ def verbatim_store_rule(prog, ctx, rule, fname, field, pindex, what):
                      "read back later is not what was given" % (field, why, pname), key="verbatim:%s:%s" % (fname, field))
         else:
             ctx.inconclusive(rule, what, st.where, "source %s not understood" % why)
+
+
+def index_param_rule(prog, ctx, rule):
+    """A function that is handed the index of "its" entry (`size_t num`) works on that entry: every subscript of an entry array in its
+    body is that parameter, unchanged.  (`file_entry[num + 1]`, or the index of another variable of the same type, reads or writes the
+    neighbour - or the slot behind the array for the last entry.)"""
+    from sa.ast import render
+    from sa import query
+    n = 0
+    for f in prog.lib_functions():
+        idx = [q["name"] for q in f.params if (q.get("ct") or "") in ("unsigned long", "size_t") and q["name"] in ("num", "index", "idx", "pos", "n")]
+        if len(idx) != 1:
+            continue
+        ip = idx[0]
+        if [1 for l, r, st, k in query.stores(f) if render(l) == ip]:
+            continue
+        subs = [x for x in f.walk() if x.k == "ArraySubscriptExpr" and render(x.children[0]).endswith("file_entry")]
+        if not subs:
+            continue
+        own = [x for x in subs if render(x.children[1]) == ip]
+        other = [x for x in subs if render(x.children[1]) != ip]
+        if not own:
+            continue
+        n += 1
+        ctx.touch(f)
+        derived = [x for x in other if ip in render(x.children[1])]
+        if derived:
+            ctx.fail(rule, "%s works on the entry it is given" % f.name, derived[0].where,
+                     "`%s`: %d other accesses use `[%s]` - this one addresses a neighbour of the entry (for the last entry: the slot behind the array)" % (
+                         render(derived[0])[:60], len(own), ip), key="index-param:%s" % f.name)
+        elif other and all(render(x.children[1]).replace(" ", "").isidentifier() for x in other):
+            # another index variable altogether (a loop over all entries next to the one given): not this rule's business
+            ctx.ok(rule, "%s works on the entry it is given" % f.name, f.where, "%d accesses with [%s]; %d with a loop index of their own" % (len(own), ip, len(other)))
+        else:
+            ctx.ok(rule, "%s works on the entry it is given" % f.name, f.where, "all %d entry accesses use [%s]" % (len(own), ip))
+    ctx.floor("%s functions with an entry index parameter" % rule, n, 10)
